@@ -217,8 +217,8 @@ example : handleCharref wCfg (decDigits 4 9731) = [9731] :=
 `Writer.WDoc` is the document a writer has in mind, `Writer.emitDoc iv c ds` the html.parser callback stream of its
 markup under the writer's per-occurrence choices `c` (Model/Writer.lean: every void element spelt `<br>`, `<br/>`
 or `<br></br>`; every text cut into arbitrarily many chunks, every character of it spelt literally, as a decimal or
-hexadecimal reference with any number of leading zeros in either case, or as a named reference; the keyword of a
-doctype/CDATA section in either case; start-tag positions whatever the in-tag whitespace makes them), and
+hexadecimal reference with any number of leading zeros in either case, or as a named reference; every letter of
+the keyword of a doctype/CDATA section in either case; start-tag positions whatever the in-tag whitespace makes them), and
 `Writer.normalise` the tree the document describes. Hypotheses, all decidable and explicit:
 
  * `CfgOK bcfg` (C03): the `BeautifulSoup` object's own name is neither whitespace-preserving nor a string container;
@@ -276,9 +276,9 @@ def xC : Choices :=
       else if p == [2, 1] then .dec 2
       else if p == [4, 1] then .hex true false 0
       else .lit false,
-    kwUpper := fun _ => false }
-/-- the other extreme: every void element `<br/>`, everything literal and in one chunk -/
-def xC' : Choices := { xC with void := fun _ => .slash, char := fun _ _ => .lit false, kwUpper := fun _ => true }
+    kwCase := fun _ _ => false }
+/-- the other extreme: every void element `<br/>`, everything literal and in one chunk, `DocType` -/
+def xC' : Choices := { xC with void := fun _ => .slash, char := fun _ _ => .lit false, kwCase := fun _ i => i % 3 == 0 }
 
 def xTree : List Doc :=
   [ .text 5 [104, 116, 109, 108],
